@@ -35,13 +35,15 @@ Shapes == {"exact", "lower", "upper", "mixed", "mapping_get_raises", "pairs", "g
 StrValues == {"empty", "blanks", "d1", "d10", "d308", "d309", "d310", "d4300", "d4301",
               "padded", "plus", "minus", "minus_big", "underscore", "unicode_digit", "decimal",
               "exponent", "date_past", "date_future", "date_far", "date_rfc850", "date_asctime",
-              "date_naive", "garbage", "nul", "hex"}
+              "date_naive", "date_bigfield", "date_zoned_edge", "garbage", "nul", "hex"}
 AttrValues == {"int", "float", "true", "negint", "bigint", "nan", "inf", "none", "list", "obj"}
              \cup StrValues
 
 \* expectation for a string value, once it reaches the parser
 ExpectStr(v) ==
     CASE v \in {"empty", "blanks", "decimal", "exponent", "garbage", "nul", "hex"} -> "none"
+      [] v = "date_bigfield" -> "none"         \* a date field beyond any calendar (and any C int)
+      [] v = "date_zoned_edge" -> "open"       \* representable only in its own zone: no hint or a delay
       [] v \in {"d1", "d10", "d308", "padded"} -> "n"
       [] v \in {"d309", "d310", "d4300", "d4301"} -> "none"      \* beyond float range: no hint
       [] v = "plus" -> "open"                                   \* "+5": not a plain decimal integer
